@@ -138,6 +138,10 @@ def random_jobs(ctx, prop, count):
             W = inputs.rand_graph(rng, n, rng.choice([0.3, 0.5, 0.8]), und=und, wmax=rng.choice([1, 3]))
             if W.sum() == 0:
                 continue
+            if rng.random() < 0.2:       # self-connections: part of "all networks with positive total
+                for i in range(n):       # weight"; the first level then has the diagonal terms that
+                    if rng.random() < 0.5:      # otherwise only pooled later levels have
+                        W[i, i] = rng.randint(1, 2)
             job = dict(fn=fn, prop=prop, W=W.tolist(), gn=gn, gd=gd, seed=rng.randrange(2 ** 31), src="random")
             if fn == "community_louvain":
                 job["objective"] = "modularity" if rng.random() < 0.8 or not (W <= 1).all() else "potts"
@@ -190,6 +194,8 @@ def random_jobs(ctx, prop, count):
         p = list(range(n))
         rng.shuffle(p)
         A = A[np.ix_(p, p)]
+        if rng.random() < 0.25:          # unit (or heavier) self-connection on every node
+            A[np.diag_indices(n)] = rng.choice([1, 2])
         fn = ["community_louvain", "modularity_louvain_und", "modularity_finetune_und",
               "community_louvain"][t % 4]
         gn, gd = GAMMAS[(t // 4) % 3]
